@@ -15,6 +15,9 @@ pub uninterp spec fn hs_flags(h: &TlsHandshaker) -> (bool, bool);             //
 pub uninterp spec fn hs_roots(h: &TlsHandshaker) -> Seq<Certificate>;
 pub uninterp spec fn tls_domain<S>(t: &TlsStream<S>) -> Seq<char>;            // the name the peer certificate is verified against
 pub uninterp spec fn tls_flags<S>(t: &TlsStream<S>) -> (bool, bool);
+/// the flags a TLS session was set up with are those of the request's settings, as far as the property can tell them apart:
+/// accepting invalid certificates waives everything, so the hostname waiver is only pinned down when that flag is off
+pub open spec fn flags_are(f: (bool, bool), certs: bool, names: bool) -> bool { f.0 == certs && (certs || f.1 == names) }
 pub uninterp spec fn tls_roots<S>(t: &TlsStream<S>) -> Seq<Certificate>;
 pub uninterp spec fn tls_inner<S>(t: &TlsStream<S>) -> S;                      // the stream the session runs over, as handed to the handshake
 pub uninterp spec fn host_str_of(h: url::Host<&str>) -> Seq<char>;             // Display of a Host (IPv6 bracketed) == Url::host_str
